@@ -1,3 +1,2 @@
--- This module serves as the root of the `Tgmodel` library.
--- Import modules here that should be built as part of the library.
-import Tgmodel.Basic
+-- Root of the `TgModel` library: models, lemmas and one property file per claimed property.
+import TgModel.Props.C01
